@@ -378,7 +378,7 @@ func (sb *seqbag) FilterLength(minlength, maxlength int) (err error) {
 	oldseqs := sb.seqs
 	sb.Clear()
 	for _, seq := range oldseqs {
-		if (minlength >= 0 && seq.Length() >= minlength) || (maxlength > 0 && seq.Length() <= maxlength) {
+		if (minlength < 0 || seq.Length() >= minlength) && (maxlength < 0 || seq.Length() <= maxlength) {
 			if err = sb.AddSequenceChar(seq.name, seq.sequence, seq.comment); err != nil {
 				return
 			}
